@@ -449,7 +449,7 @@ def gen_member_type_theory(s, name="mt"):
 def gen_member_type_facts(rng, sig, th):
     create = []
     labels = {ty: [] for ty in sig.all_types}
-    for i in range(rng.randint(1, 2)):
+    for i in range(rng.randint(1, 3)):
         create.append(["new", "Ta", "Ta%d" % i])
         labels["Ta"].append("Ta%d" % i)
     nobj = rng.randint(2, 4)
@@ -459,7 +459,7 @@ def gen_member_type_facts(rng, sig, th):
         create.append(["new", MODEL, lab])
         labels[MODEL].append(lab)
         members[lab] = []
-        for j in range(rng.choice((0, 1, 1, 2))):
+        for j in range(rng.choice((0, 1, 2, 2, 3))):
             sl = "%s%d%s" % (MTYPE, i, LET[j])
             create.append(["new", MTYPE, sl, lab])
             labels[MTYPE].append(sl)
@@ -474,9 +474,13 @@ def gen_member_type_facts(rng, sig, th):
         if r < 0.85:
             morph.append(["ins", DOM, lab, la])
             morph.append(["ins", COD, lab, lb])
-            # some images given by the caller (only between members of the right models)
+            # some images given by the caller (only between members of the right models); every
+            # other morphism is deliberately not injective: several elements share one image
+            collapse = rng.choice(members[lb]) if members[lb] and rng.random() < 0.5 else None
             for sx in members[la]:
-                if members[lb] and rng.random() < 0.4:
+                if collapse is not None and rng.random() < 0.85:
+                    morph.append(["ins", APP, lab, sx, collapse])
+                elif members[lb] and rng.random() < 0.4:
                     morph.append(["ins", APP, lab, sx, rng.choice(members[lb])])
         elif r < 0.93:
             morph.append(["ins", DOM, lab, la])
@@ -487,8 +491,9 @@ def gen_member_type_facts(rng, sig, th):
         for sx in members[lab]:
             if rng.random() < 0.6:
                 facts.append(["ins", "ps", lab, sx])
-            if rng.random() < 0.5:
-                facts.append(["ins", "pr", lab, sx, rng.choice(labels["Ta"])])
+            for tl in labels["Ta"]:
+                if rng.random() < 0.4:
+                    facts.append(["ins", "pr", lab, sx, tl])
             if "fs" in sig.funcs and rng.random() < 0.4:
                 facts.append(["ins", "fs", lab, sx, rng.choice(members[lab])])
         if rng.random() < 0.3:
